@@ -65,7 +65,7 @@ func habs(s string) []int {
 	return out
 }
 
-var evNames = []string{"", "deploy", "load-x"}
+var evNames = []string{"", "deploy", "load-x", "d", "de", "deploy-prod"}
 var memberTypes = map[string]serf.EventType{"member-join": serf.EventMemberJoin, "member-leave": serf.EventMemberLeave,
 	"member-failed": serf.EventMemberFailed, "member-update": serf.EventMemberUpdate, "member-reap": serf.EventMemberReap}
 var addrClasses = map[int]net.IP{1: net.IPv4(10, 1, 2, 3), 2: net.ParseIP("fe80::1"), 3: nil}
